@@ -228,7 +228,7 @@ impl Gen {
             ("resolve", 6), ("index", 2), ("tryResolve", 5), ("resolveU", 2), ("containsKey", 3), ("len", 2), ("isEmpty", 1),
             ("mem", 2), ("max", 1), ("setLimit", 2), ("clear", 2), ("clone", 1), ("tryClone", 1), ("cloneFrom", 1),
             ("tryCloneFrom", 1), ("drop", 1), ("intoReader", 1), ("intoResolver", 1), ("iter", 1), ("strings", 1),
-            ("iterScript", 2), ("eq", 1), ("ser", 1), ("roundtrip", 1), ("audit", 3), ("new", 2), ("via", 3), ("extend", 1), ("fromIter", 1),
+            ("iterScript", 2), ("eq", 1), ("ser", 1), ("roundtrip", 1), ("audit", 3), ("new", 2), ("via", 3), ("extend", 1), ("fromIter", 1), ("de", 1),
         ];
         let boost = |ops: &[(&'static str, u32)]| -> Vec<(&'static str, u32)> {
             let mut b = base.clone();
@@ -251,6 +251,7 @@ impl Gen {
             "serde" => boost(&[("roundtrip", 12), ("ser", 8), ("new", 5), ("intoReader", 3), ("intoResolver", 3), ("internS", 6)]),
             "static" => boost(&[("internS", 25), ("internSP", 8), ("via", 25), ("intoReader", 3), ("intoResolver", 3), ("resolve", 10), ("clone", 2), ("mem", 5)]),
             "wrap" => boost(&[("via", 45), ("extend", 5), ("fromIter", 5), ("index", 6), ("iterScript", 4), ("intoReader", 2), ("intoResolver", 2)]),
+            "docs" => boost(&[("de", 45), ("intern", 10), ("get", 10), ("tryResolve", 10), ("iter", 6), ("intoReader", 5), ("intoResolver", 6), ("ser", 3), ("roundtrip", 3), ("iterScript", 4), ("audit", 3), ("drop", 4), ("internS", 3)]),
             "eq" => boost(&[("eq", 30), ("new", 10), ("clone", 6), ("intoReader", 5), ("intoResolver", 5), ("fromIter", 5), ("roundtrip", 4)]),
             _ => base,
         }
@@ -445,6 +446,84 @@ impl Gen {
                 }
                 self.slots[b].limit = None;
                 self.emit(format!("roundtrip {a} {b}"));
+            }
+            "de" => {
+                if any.len() >= 6 {
+                    // make room
+                    let si = any[self.rng.below(any.len() as u64) as usize];
+                    self.slots[si].kind = "gone";
+                    self.emit(format!("drop {si}"));
+                }
+                let b = self.slots.iter().position(|s| s.kind == "gone").unwrap_or(self.slots.len());
+                let kind: &'static str = *self.rng.pick(&["rodeo", "reader", "resolver", "threaded", "threaded"]);
+                let cap = self.cap;
+                let n = match self.rng.below(10) {
+                    0 => 0,
+                    1..=6 => self.rng.range(1, 6) as usize,
+                    7 => (cap.min(300) as usize).saturating_sub(1),
+                    8 => cap.min(300) as usize,
+                    _ => (cap.min(300) as usize) + self.rng.range(1, 3) as usize,
+                };
+                let mut strs: Vec<Vec<u8>> = Vec::new();
+                for i in 0..n {
+                    let r = self.rng.below(100);
+                    if r < 25 && !strs.is_empty() && n <= 12 {
+                        // a repetition, anywhere
+                        let j = self.rng.below(strs.len() as u64) as usize;
+                        strs.push(strs[j].clone());
+                    } else if n > 12 {
+                        let mut v = vec![b'd'];
+                        v.extend(i.to_string().bytes());
+                        strs.push(v);
+                    } else {
+                        let sidx = if self.slots.is_empty() { 0 } else { 0 };
+                        let x = self.some_string(sidx);
+                        strs.push(x);
+                    }
+                }
+                if n > 12 && self.rng.chance(1, 3) && n >= 2 {
+                    let j = self.rng.below((n - 1) as u64) as usize;
+                    strs[n - 1] = strs[j].clone();
+                }
+                let doc = if kind == "threaded" {
+                    // keys: dense permutation, then damaged in various ways
+                    let mut keys: Vec<u128> = (1..=n as u128).collect();
+                    for i in (1..keys.len()).rev() {
+                        let j = self.rng.below((i + 1) as u64) as usize;
+                        keys.swap(i, j);
+                    }
+                    if !keys.is_empty() {
+                        let i = self.rng.below(keys.len() as u64) as usize;
+                        match self.rng.below(9) {
+                            0 => keys[i] = 0,
+                            1 => keys[i] = keys[(i + 1) % keys.len()],
+                            2 => keys[i] += 1 + self.rng.below(5) as u128,
+                            3 => keys[i] = cap,
+                            4 => keys[i] = cap + 1,
+                            5 => keys[i] = u64::MAX as u128,
+                            _ => {}
+                        }
+                    }
+                    let items: Vec<String> = strs.iter().zip(keys.iter()).map(|(s, k)| format!("{}={}", hex(s), k)).collect();
+                    if items.is_empty() { "_".to_string() } else { items.join(",") }
+                } else if strs.is_empty() {
+                    "_".to_string()
+                } else {
+                    strs.iter().map(|s| hex(s)).collect::<Vec<_>>().join(",")
+                };
+                let mut uniq: Vec<Vec<u8>> = Vec::new();
+                for x in &strs {
+                    if !uniq.contains(x) {
+                        uniq.push(x.clone());
+                    }
+                }
+                let gs = GSlot { kind, strs: uniq, bytes: 4096, limit: None };
+                if b == self.slots.len() {
+                    self.slots.push(gs);
+                } else {
+                    self.slots[b] = gs;
+                }
+                self.emit(format!("de {kind} {b} {doc}"));
             }
             "extend" => {
                 let Some(&si) = interners.get(self.rng.below(interners.len().max(1) as u64) as usize) else { return };
